@@ -307,8 +307,12 @@ package tlog
 //@   props C10
 
 //@ # ---------- proof producers: no crash, and the proof has the RFC length (content: not decided) ----------
+//@ # an authenticating reader returns only hashes the tree head it was created for commits to (for the in-repo
+//@ # tileHashReader this is C10: coverage proved, tile arithmetic assumed)
 //@ iface HashReader.ReadHashes(r HashReader, indexes []int64) (hashes []Hash, err error)
 //@   allocates
+//@   modifies "map[Tile]bool", ghost.WRITTEN
+//@   ensures err == nil ==> len(hashes) == len(indexes) && (forall i int :: 0 <= i && i < len(indexes) ==> hashes[i] == TRUEH(RTREE(r), indexes[i]))
 
 //@ # number of stored hashes needed for the audit path / consistency proof
 //@ spec func LPI(lo int, hi int, n int) int decreases hi - lo uses K_bounds =
@@ -353,13 +357,13 @@ package tlog
 //@   requires lo <= n && n < hi && 0 <= lo && len(hashes) >= LPI(lo, hi, n)
 //@   decreases hi - lo
 //@   allocates
-//@   modifies []Hash
+//@   modifies []Hash, "map[Tile]bool", ghost.WRITTEN
 //@   ensures len(result1) == len(hashes) - LPI(lo, hi, n) && len(result0) == PL(lo, hi, n)
 //@   uses K_bounds PL_nonneg LPI_nonneg NT_nonneg
 //@   props C03
 
 //@ func ProveRecord
-//@   modifies []Hash
+//@   modifies []Hash, "map[Tile]bool", ghost.WRITTEN
 //@   uses LPI_nonneg LPI_zero
 //@   ensures result1 == nil ==> 0 <= n && n < t && len(result0) == PL(0, t, n)
 //@   ensures !(0 <= n && n < t) ==> result1 != nil
@@ -377,14 +381,42 @@ package tlog
 //@   requires 0 <= lo && lo < n && n <= hi && len(hashes) >= TPI(lo, hi, n)
 //@   decreases hi - lo
 //@   allocates
-//@   modifies []Hash
+//@   modifies []Hash, "map[Tile]bool", ghost.WRITTEN
 //@   ensures len(result1) == len(hashes) - TPI(lo, hi, n) && len(result0) == TL(lo, hi, n)
 //@   uses K_bounds TL_nonneg TPI_nonneg NT_nonneg
 //@   props C03
 
 //@ func ProveTree
-//@   modifies []Hash
+//@   modifies []Hash, "map[Tile]bool", ghost.WRITTEN
 //@   uses TPI_nonneg TPI_zero
 //@   ensures result1 == nil ==> 1 <= n && n <= t && len(result0) == TL(0, t, n)
 //@   ensures !(1 <= n && n <= t) ==> result1 != nil
 //@   props C03
+
+//@ # ---------- summaries used by the client (C01, C13): results expressed through the ghost notions of prelude/50_sumdb.spec ----------
+//@ func TileHashReader
+//@   allocates
+//@   trusted "definition of RTREE: the reader is created for this tree head"
+//@   ensures result != nil && RTREE(result) == tree
+//@   props C01 C13
+//@ func TreeHash
+//@   modifies "map[Tile]bool", ghost.WRITTEN
+//@   allocates
+//@   trusted "relies on C10 (authenticated tile reads) and C09 (tree hash = RFC 6962 hash); here: the result is the prefix hash committed to by the reader's tree head"
+//@   ensures result1 == nil ==> result0 == PREFIXH(RTREE(r), n)
+//@   props C01 C13
+//@ func ParseTree
+//@   allocates
+//@   trusted "text codec (fmt/strconv/base64); here: a function of the text"
+//@   ensures err == nil ==> tree == PTREE(string(text))
+//@   props C01 C13
+//@ func RecordHash
+//@   allocates
+//@   trusted "SHA-256 of the record text; here: a function of the text"
+//@   ensures result == RHASH(string(data))
+//@   props C01 C13
+//@ func ParseRecord
+//@   allocates
+//@   trusted "text codec; here: a relation between the message and its parts"
+//@   ensures err == nil ==> PARSEDREC(string(msg), id, string(text), string(rest))
+//@   props C01 C13
